@@ -64,6 +64,7 @@ impl CaseInfo {
 
 thread_local! {
     static LAST_PANIC: RefCell<Option<String>> = const { RefCell::new(None) };
+    static GUARD_DEPTH: std::cell::Cell<u32> = const { std::cell::Cell::new(0) };
 }
 static HOOK_SET: AtomicBool = AtomicBool::new(false);
 
@@ -87,7 +88,8 @@ pub fn install_panic_hook() {
             "<non-string panic>".to_string()
         };
         LAST_PANIC.with(|p| *p.borrow_mut() = Some(format!("{loc}: {msg}")));
-        if verbose {
+        // a panic outside `guard` is a bug of the harness itself: always show it
+        if verbose || GUARD_DEPTH.with(|d| d.get()) == 0 {
             default(info);
         }
     }));
@@ -117,7 +119,10 @@ pub fn strip_digits(s: &str) -> String {
 
 /// Run `f`, converting a panic into a `Fail` with clause `panic:<file>: <msg without digits>`.
 pub fn guard<R>(f: impl FnOnce() -> Result<R, Fail>) -> Result<R, Fail> {
-    match catch_unwind(AssertUnwindSafe(f)) {
+    GUARD_DEPTH.with(|d| d.set(d.get() + 1));
+    let r = catch_unwind(AssertUnwindSafe(f));
+    GUARD_DEPTH.with(|d| d.set(d.get() - 1));
+    match r {
         Ok(r) => r,
         Err(_) => {
             let p = take_last_panic().unwrap_or_else(|| "?: <unknown panic>".into());
